@@ -226,6 +226,17 @@ fn contexts(form: &Sx) -> Vec<(&'static str, Vec<Sx>)> {
         ("top-level", vec![form.clone()]),
         ("tail-of-procedure", vec![Sx::List(vec![Sx::Sym("define".into()), Sx::List(vec![Sx::Sym("proc".into())]), form.clone()]), parse1("(proc)")]),
         ("operand", vec![Sx::List(vec![Sx::Sym("list".into()), Sx::Int(0), form.clone()])]),
+        (
+            "non-tail-in-procedure",
+            vec![
+                Sx::List(vec![
+                    Sx::Sym("define".into()),
+                    Sx::List(vec![Sx::Sym("proc2".into())]),
+                    Sx::List(vec![Sx::Sym("list".into()), form.clone(), Sx::Int(1)]),
+                ]),
+                parse1("(proc2)"),
+            ],
+        ),
     ]
 }
 
@@ -279,6 +290,33 @@ pub fn cases(thorough: bool) -> Vec<Case> {
                 out.push(Case { forms, tags: vec![format!("form={}", fam), format!("ctx={}", cname), "single".into()] });
             }
         }
+    }
+    // (1b) scoping of let / let* initialisers against variables of the enclosing (top-level)
+    // scope, with the form itself in every context (so that it is also evaluated in NON-tail position)
+    for text in [
+        "(let ((p E1) (q p)) (list p q))",
+        "(let ((p q) (q p)) (list p q E1))",
+        "(let ((p E1) (q (list p))) (list p q))",
+        "(let* ((p E1) (q p)) (list p q))",
+        "(let* ((p q) (q p)) (list p q E1))",
+        "(let ((p E1)) (let ((q p) (p q)) (list p q)))",
+        "(let ((s E1) (p (list p q))) (list s p q))",
+        "(let ((p E1) (q E2) (s (list p q))) s)",
+        "(let* ((s p) (p E1) (q (list s p q))) q)",
+    ] {
+        let t = parse1(text);
+        let form = instantiate(&t, &[], 0, None, None);
+        for (cname, forms) in contexts(&form) {
+            let mut fs = vec![parse1("(define p 1)"), parse1("(define q 2)")];
+            fs.extend(forms);
+            out.push(Case { forms: fs, tags: vec!["form=let-scope".into(), format!("ctx={}", cname), "single".into()] });
+        }
+        // as an argument of a procedure call inside a procedure body (non-tail, nested)
+        let wrapped = Sx::List(vec![Sx::Sym("list".into()), Sx::Int(0), form.clone()]);
+        let mut fs = vec![parse1("(define p 1)"), parse1("(define q 2)")];
+        fs.push(Sx::List(vec![Sx::Sym("define".into()), Sx::List(vec![Sx::Sym("proc".into())]), wrapped, Sx::Int(9)]));
+        fs.push(parse1("(proc)"));
+        out.push(Case { forms: fs, tags: vec!["form=let-scope".into(), "ctx=non-tail-body-expression".into(), "single".into()] });
     }
     // (2): every pair nested in every sub-form position (thorough: triples)
     let reps = representatives();
